@@ -851,6 +851,19 @@ def run(ctx):
             ctx.ok("C04-R5", "options are read from stream 0 (the spectrum stream)", cm.loc_of(sm[0][1]["span"]))
         else:
             ctx.fail("C04-R5", lm.path, "option stream", "options are not read from stream 0", lm.loc())
+    # a header that does not mention an option means the format's default: GAMMA=0 (mel-cepstral
+    # family) and LN_GAIN=0 (linear gain).  load_model writes these fields only when the key is
+    # present, so the value a freshly loaded engine has otherwise is Condition::default's
+    db = cm.body_or_fail(ctx, p, "C04-R5", "<engine::Condition as std::default::Default>::default")
+    if db is not None:
+        ret = ExprBuilder(db).local(0)
+        vals = dict(zip(ret[3], ret[2])) if ret[0] == "agg" and ret[3] else {}
+        for f, want in (("stage", 0), ("use_log_gain", False)):
+            v = vals.get(f)
+            if v is not None and v[0] == "c" and isinstance(v[1], bool) == isinstance(want, bool) and v[1] == want:
+                ctx.ok("C04-R5", "without the option: %s = %s (the format's default)" % (f, want), db.loc())
+            else:
+                ctx.fail("C04-R5", db.path, "default " + f, "a voice whose header does not give the option gets %s = %s, expected %s (GAMMA=0 / LN_GAIN=0 are the format's defaults)" % (f, show(v) if v is not None else None, want), db.loc())
 
     # ---- R6
     qp = cm.body_or_fail(ctx, p, "C04-R6", "model::voice::question::Question::parse")
